@@ -1,6 +1,7 @@
 import Proofs.Delta
 import Proofs.DeltaFlat
 import Proofs.DeltaList
+import Proofs.DeltaNested
 /-!
 # C08 — bidirectional deltas invert exactly and detect a mismatched base
 
@@ -122,5 +123,18 @@ theorem C08_list_positional_inverse (cfg : DCfg) (hp : Diff.Plain cfg) (hz : cfg
     (∃ r, subDelta true (buildDelta false true (.list xs) (.list ys) (deepDiff cfg al hashOf (.list xs) (.list ys))) (.list ys)
         = .ok { root := .list r, post := [], errs := 0, raised := none } ∧ pyEqL r xs = true) :=
   list_bidirectional cfg hp al hashOf xs ys hbx hby (list_diffV_zip cfg hp hz al hashOf xs ys hbx)
+
+/-! ### nested dictionaries, end to end -/
+
+/-- **A bidirectional delta of two nested dictionaries inverts exactly** — string keys at every level, scalar leaves, any
+depth, any threshold: with `delta = Delta(DeepDiff(t1, t2), bidirectional=True)`, `t1 + delta` is `== t2` and `t2 - delta` is
+`== t1`; in both directions every entry's recorded old value is verified against the base and no error is logged. -/
+theorem C08_nested_dict_inverse (cfg : DCfg) (hp : Diff.Plain cfg) (al : Align) (hashOf : PyVal → String)
+    (v1 v2 : PyVal) (j1 : J cfg.ignorePrivate v1) (j2 : J cfg.ignorePrivate v2) :
+    (∃ r, applyDelta true (buildDelta false true v1 v2 (deepDiff cfg al hashOf v1 v2)) v1
+        = { root := r, post := [], errs := 0, raised := none } ∧ pyEq r v2 = true) ∧
+    (∃ r, subDelta true (buildDelta false true v1 v2 (deepDiff cfg al hashOf v1 v2)) v2
+        = .ok { root := r, post := [], errs := 0, raised := none } ∧ pyEq r v1 = true) :=
+  nested_bidirectional cfg hp al hashOf v1 v2 j1 j2
 
 end Delta
